@@ -1,7 +1,8 @@
 #!/usr/bin/env python3
 """Runs the quick checks named in each seeded change's meta.json ("breaks", or all with --all)
 against that change and records the outcome in meta.json["results"].
-usage: tools/run_seeded.py [--jobs N] [--all] [--only id,id] [--props C01,C02]"""
+usage: tools/run_seeded.py [--jobs N] [--all] [--only id,id] [--props C01,C02] [--prefix n]
+(--prefix: instance names are <prefix>1..<prefix>N, default m; use another one for a second concurrent run)"""
 import json, os, subprocess, sys, time
 from concurrent.futures import ThreadPoolExecutor
 ROOT = "/verif"
@@ -20,7 +21,7 @@ if only:
 import queue
 instq = queue.Queue()
 for i in range(jobs):
-    instq.put("m%d" % (i + 1))
+    instq.put("%s%d" % (opt("--prefix", "m"), i + 1))
 def work(sid):
     d = os.path.join(ROOT, "seeded", sid)
     meta = json.load(open(os.path.join(d, "meta.json")))
